@@ -389,7 +389,7 @@ def gen_routes(rng, n):
             arr = {"dtype": rng.choice(["<f8", ">i4", "u1", [["a", "<i4"], ["b", ">f8"]]]), "shape": rng.choice([[12], [13], [3, 4], [0], []]),
                    "layout": rng.choice(["C", "F", "strided", "T"])}
         nb = 96
-        cases.append({"mode": "route", "seed": rng.randrange(10 ** 9), "array": arr,
+        cases.append({"mode": "route", "seed": rng.randrange(10 ** 9), "array": arr, "mmap_mode": rng.choice(["r", "r", "c", None]),
                       "max_nbytes": rng.choice([None, 0, 1, 7, 8, 11, 12, 47, 48, 95, 96, 97, 103, 104, 105, 10 ** 6])})
     return cases
 
@@ -405,13 +405,13 @@ def judge_route(c, r):
     thr = c["max_nbytes"]
     if r["has_backing"]:
         want = "reduce_backed"
-    elif (not r["hasobject"]) and thr is not None and r["nbytes"] > thr:
-        want = "dump_temp"
+    elif (not r["hasobject"]) and thr is not None and r["nbytes"] > thr and c.get("mmap_mode", "r") is not None:
+        want = "dump_temp"          # mmap_mode=None: "None will disable memmapping"
     else:
         want = "pickle"
     if r["forward"] != want:
-        return "array of %d bytes (object=%s, memmap-backed=%s) with max_nbytes=%s took the route %s, documented %s" % (
-            r["nbytes"], r["hasobject"], r["has_backing"], thr, r["forward"], want)
+        return "array of %d bytes (object=%s, memmap-backed=%s) with max_nbytes=%s, mmap_mode=%r took the route %s, documented %s" % (
+            r["nbytes"], r["hasobject"], r["has_backing"], thr, c.get("mmap_mode", "r"), r["forward"], want)
     want_back = "reduce_backed" if r["forward"] == "reduce_backed" else "pickle"
     if r["backward"] != want_back:
         return "on the way back the array took the route %s, documented %s" % (r["backward"], want_back)
@@ -424,9 +424,10 @@ def model_routes(ctx, routes, route_res):
         if "forward" not in r or "forward_ok" not in r:
             continue
         thr = c["max_nbytes"]
-        exprs.append("(route_code (forward_route %s %s %d %s %d), route_code (Ok (backward_route %s %s)))" % (
+        mm = c.get("mmap_mode", "r")
+        exprs.append("(route_code (forward_route %s %s %d %s %s %d), route_code (Ok (backward_route %s %s)))" % (
             "true" if r["has_backing"] else "false", "true" if r["hasobject"] else "false", r["dtype_kind"],
-            "None" if thr is None else "(Some %d)" % thr, r["nbytes"],
+            "None" if thr is None else "(Some %d)" % thr, "None" if mm is None else "(Some %d)" % ord(mm[0]), r["nbytes"],
             "true" if r["forward_memmap"] else "false", "true" if r["backward_is_joblib_temp"] else "false"))
         idx.append(i)
     vals = ctx.coq_eval_lines(REQ, DEFS, exprs, name="c19_routes", shard=300)
@@ -456,6 +457,45 @@ def gen_loky_loops(rng, quick):
                   {"mode": "loky_loop", "dtype": "<f8", "shape": [5000], "max_nbytes": 0, "iterations": 12, "fill": "full",
                    "backend": "multiprocessing"}]
     return cases
+
+
+def gen_loky_modes(rng, quick):
+    """automatic memmapping with an explicit mmap_mode: None (documented: "None will disable memmapping") given as an
+    argument and through parallel_config, and a real mode for contrast; loky and multiprocessing; managed and not;
+    arrays around max_nbytes"""
+    arrays = [{"dtype": "<f8", "shape": [12], "layout": "C"}, {"dtype": "<f8", "shape": [13], "layout": "C"},
+              {"dtype": ">i4", "shape": [5, 6], "layout": "F"}, {"dtype": "<f8", "shape": [5000], "layout": "C"},
+              {"dtype": [["a", "<i4"], ["b", ">f8"]], "shape": [40], "layout": "C"}]
+    combos = [("loky", "argument", None, False), ("loky", "config", None, True), ("multiprocessing", "argument", None, True),
+              ("loky", "argument", "c", False)]
+    if not quick:
+        combos += [("multiprocessing", "config", None, False), ("loky", "argument", None, True), ("loky", "config", None, False),
+                   ("multiprocessing", "argument", "r", False), ("loky", "default", "r", True)]
+    return [{"mode": "loky_mode", "seed": rng.randrange(10 ** 9), "arrays": arrays, "max_nbytes": rng.choice([96, 10]),
+             "backend": b, "mode_given": how, "mmap_mode": mm, "managed": managed, "timeout": 40}
+            for b, how, mm, managed in combos]
+
+
+def judge_loky_mode(c, r):
+    what = "Parallel(n_jobs=2, backend=%r, max_nbytes=%s, mmap_mode=%r %s, %s)" % (
+        c["backend"], c["max_nbytes"], c["mmap_mode"], "as argument" if c["mode_given"] == "argument" else
+        ("through parallel_config" if c["mode_given"] == "config" else "by default"), "managed" if c["managed"] else "unmanaged")
+    if "harness_error" in r:
+        return what + ": the case could not be run to its end (%s %s)" % (r["harness_error"], r.get("tb", "")[-200:])
+    if "parallel_raise" in r:
+        return what + " over arrays around the threshold raised %s (the sequential run succeeds)" % r["parallel_raise"]
+    for rnd in r["rounds"]:
+        for spec, w, g in zip(c["arrays"], r["want"], rnd):
+            if (w["digest"], w["dtype"], w["shape"]) != (g["digest"], g["dtype"], g["shape"]):
+                return what + ": the task saw %s %s for an array %s %s" % (g["dtype"], g["shape"], w["dtype"], w["shape"])
+            if c["mmap_mode"] is None:
+                if g["memmap"]:
+                    return what + ": memmapping is disabled but the task received a memmap (%d bytes)" % w["nbytes"]
+                if g["temp_files"]:
+                    return what + ": memmapping is disabled but %d temporary file(s) were created" % g["temp_files"]
+            elif g["memmap"] != (w["nbytes"] > c["max_nbytes"]):
+                return what + ": array of %d bytes: memmapped=%s" % (w["nbytes"], g["memmap"])
+    return None
 
 
 def judge_loky_loop(c, r):
@@ -724,6 +764,11 @@ def search_failing(ctx, k, n=300):
         bad = judge_route(c, r)
         if bad:
             return bad, c
+    for c in gen_loky_modes(rng, True)[:2]:
+        r = run_impl_cases([c], timeout=400)[0]
+        bad = judge_loky_mode(c, r)
+        if bad:
+            return bad, c
     return None
 
 
@@ -760,6 +805,7 @@ def run(ctx):
     red = gen_reduce(rng, 160 if quick else 2000)
     lok = gen_loky(rng, quick)
     loops = gen_loky_loops(rng, quick)
+    modes = gen_loky_modes(rng, quick)
     routes = gen_routes(rng, 60 if quick else 600)
     mat = [{"mode": "loadmatrix", "payload": pk, "form": f} for pk in ("array", "object")
            for f in (0, 3, "gzip", "bz2", "lzma", "xz")]
@@ -768,8 +814,8 @@ def run(ctx):
     route_res = run_parallel(routes)
     mat_res = run_parallel(mat, workers=6)
     with cf.ThreadPoolExecutor(4) as ex:
-        both = list(ex.map(lambda c: run_impl_cases([c])[0], lok + loops))
-    lok_res, loop_res = both[:len(lok)], both[len(lok):]
+        both = list(ex.map(lambda c: run_impl_cases([c], timeout=400)[0], lok + loops + modes))
+    lok_res, loop_res, mode_res = both[:len(lok)], both[len(lok):len(lok) + len(loops)], both[len(lok) + len(loops):]
     oracle_fail, known_hits = [], {}
     dist = {"dtype_kinds": {}, "layouts": {}, "forms": {}, "targets": {}, "mmap_modes": {}, "ranks": {}}
     nontrivial = set()
@@ -808,8 +854,18 @@ def run(ctx):
                 oracle_fail.append((bad2, c, r2, None))
             else:
                 ctx.note("inconclusive real-backend run (failed once, passed when repeated): " + bad[:200])
-    addr_reuse = 0
     inconclusive = []
+    for c, r in zip(modes, mode_res):
+        bad = judge_loky_mode(c, r)
+        if bad:
+            r2 = run_impl_cases([c], timeout=400)[0]
+            bad2 = judge_loky_mode(c, r2)
+            if bad2:
+                oracle_fail.append((bad2, c, {kk: vv for kk, vv in r2.items() if kk != "rounds"}, None))
+            else:
+                inconclusive.append({"case": c, "first_attempt": bad})
+                ctx.note("inconclusive real-backend run (failed once, passed when repeated): " + bad[:200])
+    addr_reuse = 0
     for c, r in zip(loops, loop_res):
         bad = judge_loky_loop(c, r)
         if bad:
@@ -884,10 +940,11 @@ def run(ctx):
                            "correspondence": "Gen/C19_Padding.v + Model/ArrayLayout.v vs NumpyArrayWrapper / _reduce_memmap_backed"},
                           found_input=False)
     ctx.finish({
-        "evaluations": len(arr) + len(red) + len(lok) + len(kc) + len(routes) + 75 * len(mat) + sum(c["iterations"] for c in loops),
+        "evaluations": len(arr) + len(red) + len(lok) + len(kc) + len(routes) + 75 * len(mat) + sum(c["iterations"] for c in loops) + len(modes),
         "load_dispatch_combinations": 75 * len(mat),
         "reducer_routes": route_dist,
         "inconclusive_real_backend_runs": inconclusive,
+        "mmap_mode_runs": [[c["backend"], c["mode_given"], c["mmap_mode"], c["managed"]] for c in modes],
         "managed_parallel_loops": {"cases": len(loops), "calls": sum(c["iterations"] for c in loops),
                                    "fresh_arrays_allocated_at_a_dead_arrays_address": addr_reuse},
         "distinct_nontrivial": len(nontrivial),
@@ -936,6 +993,10 @@ def replay(ctx, path):
     elif c["mode"] == "route":
         b = judge_route(c, r)
         bad = (b, None) if b else None
+    elif c["mode"] == "loky_mode":
+        b = judge_loky_mode(c, r)
+        bad = (b, None) if b else None
+        r = {kk: vv for kk, vv in r.items() if kk != "rounds"}
     elif c["mode"] == "loky_loop":
         b = judge_loky_loop(c, r)
         bad = (b, None) if b else None
